@@ -85,21 +85,28 @@ def _cvc5(smt2, timeout_s):
         return 'unknown'
 
 
-def check_unsat(assertions, timeout_s=60, use_cvc5=True, extra=()):
+def check_unsat(assertions, timeout_s=60, use_cvc5=True, extra=(), order='z3', z3_timeout_s=None):
     """Satisfiability of assertions + extra -> ('unsat'|'sat'|'unknown', backend).
-    With `extra` given, `assertions` must be known satisfiable (it is sliced to the cone of influence of `extra`)."""
+    With `extra` given, `assertions` must be known satisfiable (it is sliced to the cone of influence of `extra`).
+    order='cvc5': ask cvc5 first (non-linear real arithmetic), z3 second."""
     if extra:
         assertions = slice_cone(assertions, extra)
     s = z3.Solver()
-    s.set('timeout', int(timeout_s * 1000))
+    s.set('timeout', int((z3_timeout_s or timeout_s) * 1000))
     s.add(*assertions)
     s.add(*extra)
-    r = str(s.check())
-    if r in ('sat', 'unsat'):
-        return r, 'z3-' + z3.get_version_string()
-    if use_cvc5:
-        smt2 = s.to_smt2()
-        r = _cvc5(smt2, timeout_s)
-        if r in ('sat', 'unsat'):
-            return r, 'cvc5-wheel-1.4'
+
+    def ask_z3():
+        r = str(s.check())
+        return (r, 'z3-' + z3.get_version_string()) if r in ('sat', 'unsat') else None
+
+    def ask_cvc5():
+        if not use_cvc5:
+            return None
+        r = _cvc5(s.to_smt2(), timeout_s)
+        return (r, 'cvc5-wheel-1.4') if r in ('sat', 'unsat') else None
+    for ask in ((ask_cvc5, ask_z3) if order == 'cvc5' else (ask_z3, ask_cvc5)):
+        r = ask()
+        if r:
+            return r
     return 'unknown', 'none'
